@@ -216,20 +216,29 @@ func runRoundTrips(t *testing.T, r *ev.Rec, prefix string, codecs []codec, gobFo
 						empties = append(empties, reflect.ValueOf(&ap.Endpoints{}))
 					}
 					for ei, e := range empties {
-						total++
-						id := fmt.Sprintf("%s %s.%s empty#%d", c.name, st.Name(), f.Name, ei)
-						if !r.WantCell(id) {
-							continue
+						// in the value that holds everything else, and in the one that holds nothing else but its id and type
+						for _, base := range []string{"", " alone"} {
+							total++
+							id := fmt.Sprintf("%s %s.%s empty#%d%s", c.name, st.Name(), f.Name, ei, base)
+							if !r.WantCell(id) {
+								continue
+							}
+							done++
+							x := vocab.Everything(st, gobForm)
+							if base != "" {
+								p := reflect.New(st)
+								p.Elem().FieldByName("ID").SetString("https://example.com/alone")
+								p.Elem().FieldByName("Type").SetString(string(vocab.DefaultType[st.Name()]))
+								x = p.Interface().(ap.Item)
+							}
+							reflect.ValueOf(x).Elem().Field(f.Index).Set(e)
+							ds, _ := roundTrip(c, x, prefix, st.Name()+"."+f.Name+"=empty")
+							for k := range ds {
+								ds[k].Key += " one-empty" + base
+							}
+							r.Case(id, true, "one-empty")
+							reportAll(r, "one-empty", id, ds, map[string]interface{}{"entry": c.name, "value": vocab.Dump(x)})
 						}
-						done++
-						x := vocab.Everything(st, gobForm)
-						reflect.ValueOf(x).Elem().Field(f.Index).Set(e)
-						ds, _ := roundTrip(c, x, prefix, st.Name()+"."+f.Name+"=empty")
-						for k := range ds {
-							ds[k].Key += " one-empty"
-						}
-						r.Case(id, true, "one-empty")
-						reportAll(r, "one-empty", id, ds, map[string]interface{}{"entry": c.name, "value": vocab.Dump(x)})
 					}
 				}
 			}
